@@ -168,6 +168,22 @@ example : readAll .fasta
   rw [← exFasta_bytes]
   exact (fasta_roundtrip exCfg exFasta (by decide) (by decide)).trans (by decide)
 
+/-- non-ASCII header text: id `sé` (`73 C3 A9`), description `漢` (`E6 BC A2`), bases ACG -/
+private def exUtf : SrcRec :=
+  { id := [115, 195, 169], desc := some [230, 188, 162], seq := [65, 67, 71], qual := [] }
+
+example : wfFasta exUtf = true := by decide
+
+/-- `>sé 漢\r\nACG` -/
+private theorem exUtf_bytes : serialiseFasta exCfg [exUtf] =
+    [62, 115, 195, 169, 32, 230, 188, 162, 13, 10, 65, 67, 71] := by
+  simp [serialiseFasta, fastaLines, headerLine, joinLines, chunks, exUtf, exCfg]
+
+example : readAll .fasta [62, 115, 195, 169, 32, 230, 188, 162, 13, 10, 65, 67, 71] =
+    ([{ n := 0, id := [115, 195, 169], seq := [65, 67, 71] }], ParseStatus.done) := by
+  rw [← exUtf_bytes]
+  exact (fasta_roundtrip exCfg [exUtf] (by decide) (by decide)).trans (by decide)
+
 /-- `s1 a b` / ACGTACG / !"#$%&', `s2` / GG / +@ (quality lines may start with `+` or `@`) -/
 private def exFastq : List SrcRec :=
   [ { id := [115, 49], desc := some [97, 32, 98], seq := [65, 67, 71, 84, 65, 67, 71],
